@@ -254,11 +254,13 @@ fn skew_case(out: &mut Out, r: &mut Rng) {
     let regular = r.chance(1, 3);
     let mut pts: Vec<(f64, f64)> = Vec::new();
     let mut ang = 0.0;
-    let step = std::f64::consts::TAU / k as f64;
-    for _ in 0..k {
+    // points on a circle in increasing angle, the k arcs (the closing one included) sharing the full turn in
+    // proportions 0.6..1.4: a convex polygon whose shortest side is bounded below (no arc under 0.6/1.4 of 2pi/k)
+    let w: Vec<f64> = (0..k).map(|_| if regular { 1.0 } else { 0.6 + 0.8 * (r.below(1000) as f64 / 1000.0) }).collect();
+    let total: f64 = w.iter().sum();
+    for wi in &w {
         pts.push((2.0 * f64::cos(ang), 2.0 * f64::sin(ang)));
-        // points on a circle in increasing angle: a convex polygon
-        ang += if regular { step } else { step * (0.6 + 0.8 * (r.below(1000) as f64 / 1000.0)) * 0.99 };
+        ang += std::f64::consts::TAU * wi / total;
     }
     let build = |pts: &[(f64, f64)], start: usize| -> f64 {
         let m: CMap2<f64> = CMapBuilder::<2, f64>::from_n_darts(k).build().unwrap();
@@ -277,6 +279,8 @@ fn skew_case(out: &mut Out, r: &mut Rng) {
     vals.push(build(&pts.iter().map(|q| (q.0 * th.cos() - q.1 * th.sin(), q.0 * th.sin() + q.1 * th.cos())).collect::<Vec<_>>(), 0));
     let sc = [0.5, 3.0, 1e-3, 250.0][r.below(4) as usize];
     vals.push(build(&pts.iter().map(|q| (q.0 * sc, q.1 * sc)).collect::<Vec<_>>(), 0));
+    // magnitude of the translation: the law's tolerance for the translated image is relative to it
+    vals.push(tx.abs().max(ty.abs()));
     law(out, 53, 11, &[&vals]);
 }
 
